@@ -85,7 +85,7 @@ def avg(uops):
 SCENARIOS = []
 for isa in ("x86", "aarch64"):
     for role in ("load", "store", "rmw"):
-        for tables in ("typed", "untyped", "default", "typed-second"):
+        for tables in ("typed", "untyped", "default", "typed-second", "othertyped-then-untyped"):
             for mult in (False, True):
                 if mult and tables != "typed":
                     continue
@@ -126,8 +126,12 @@ def compose_unit(isa):
                 s_othert = (Mrow(src="xmm" if isa == "x86" else "q", **addr), [[sn("sc2"), "4"]])
                 s_untyped = (Mrow(**addr), [[sn("sc2"), "4"]])
                 s_nomatch = (Mrow(src=rt, **other), [[7, "0"]])
-                lrows = {"typed": [l_nomatch, l_typed], "typed-second": [l_othert, l_typed], "untyped": [l_nomatch, l_untyped], "default": [l_nomatch]}[tables]
-                srows = {"typed": [s_nomatch, s_typed], "typed-second": [s_othert, s_typed], "untyped": [s_nomatch, s_untyped], "default": [s_nomatch]}[tables]
+                # "othertyped-then-untyped": a row for ANOTHER register type comes first, the row for every type second: a row typed
+                # for another register type is not "the model's micro-ops for its register type" (statement)
+                lrows = {"typed": [l_nomatch, l_typed], "typed-second": [l_othert, l_typed], "untyped": [l_nomatch, l_untyped], "default": [l_nomatch],
+                         "othertyped-then-untyped": [l_othert, l_untyped]}[tables]
+                srows = {"typed": [s_nomatch, s_typed], "typed-second": [s_othert, s_typed], "untyped": [s_nomatch, s_untyped], "default": [s_nomatch],
+                         "othertyped-then-untyped": [s_othert, s_untyped]}[tables]
                 data = {"isa": isa, "ports": list(PORTS), "load_latency": {rt: sn("ll"), "xmm": 9, "q": 9},
                         "load_throughput": lrows, "load_throughput_default": [[sn("dl"), "23"]],
                         "store_throughput": srows, "store_throughput_default": [[sn("ds"), "23"], [1, "4"]]}
@@ -391,7 +395,7 @@ class UL:
 def selection_unit(isa):
     """P: ArchSemantics.assign_tp_lt, composition branch (real code), for load/store tables of ANY length: among the rows that
     get_load_throughput returned (contract: C08/get_load_throughput) the micro-ops of the FIRST row whose destination type is
-    given and matches the data register are used, else those of the first row; for stores the first row returned for
+    given and matches the data register are used, else those of the first row without a type, else those of the first row; for stores the first row returned for
     (memory, data register type); the resulting port pressure is register form + multiplier * load row + multiplier * store
     row and the micro-op list is their concatenation in that order."""
     def unit(res):
@@ -496,9 +500,15 @@ def selection_unit(isa):
                     if role != "store":
                         c = [x for x in pu.parts if x != "E" and x[0] == "L"][0][1]
                         c = c if z3.is_expr(c) else z3.IntVal(c)
+                        # statement: the model's load micro-ops "for its addressing mode AND register type": the first row written for
+                        # this register type; if there is none, the first row that holds for every type (no type given); only if
+                        # there is neither, the first row
                         sel = lambda i: z3.And(typed(i), ok(i))
+                        unt = lambda i: z3.Not(typed(i))
+                        first = lambda pr: z3.And(pr(c), z3.ForAll([j], z3.Implies(z3.And(0 <= j, j < c), z3.Not(pr(j)))))
                         anysel = z3.Exists([j], z3.And(0 <= j, j < NL, sel(j)))
-                        g.append(z3.And(0 <= c, c < NL, z3.If(anysel, z3.And(sel(c), z3.ForAll([j], z3.Implies(z3.And(0 <= j, j < c), z3.Not(sel(j))))), c == 0)))
+                        anyunt = z3.Exists([j], z3.And(0 <= j, j < NL, unt(j)))
+                        g.append(z3.And(0 <= c, c < NL, z3.If(anysel, first(sel), z3.If(anyunt, first(unt), c == 0))))
                         lp = [appL(c, k) * (R["ml"] if mult else 1) for k in range(len(PORTS))]
                     if role in ("store", "rmw"):
                         c = [x for x in pu.parts if x != "E" and x[0] == "S"][0][1]
